@@ -66,6 +66,11 @@ func wordTags(backend, word string, roles []string) []string {
 func vetoFor(backend, src string) func(w meta.AdvWord, roles []string) bool {
 	wgAtomic := strings.Contains(src, "var<workgroup>") && strings.Contains(src, "atomic<")
 	return func(w meta.AdvWord, roles []string) bool {
+		if backend == "msl" && strings.HasPrefix(w.Text, "double") {
+			// harness limit: ctext's MSL dialect takes the emitted "double4_" for a double type
+			ev.Class("harness-limit:ctext-msl-double-names")
+			return true
+		}
 		// C16-4: any member whose MSL spelling differs from its WGSL spelling breaks the
 		// zero-initialisation of workgroup structs that hold atomics
 		if backend == "msl" && wgAtomic && ev.ExcludedQuiet("c16.msl.zeroinit.member-keyword") {
@@ -305,7 +310,7 @@ func ctokens(s string) []ctok {
 	return out
 }
 
-var reSuffix = regexp.MustCompile(`(_\d+)?_?$`)
+var reSuffix = regexp.MustCompile(`_\d+$`)
 
 // alphaEqual compares two backend texts up to a renaming of identifiers.
 // Everything that is not an identifier must be identical.  Identifier
@@ -334,6 +339,7 @@ func alphaEqual(x, y string) (bool, string) {
 	gf, gr := map[string]string{}, map[string]string{}
 	lf, lr := map[string]string{}, map[string]string{}
 	mf, mr := map[string]string{}, map[string]string{} // struct members live in their own name space
+	mcand := map[string]map[string]bool{}
 	inStruct := false
 	for k := range tx {
 		a, b := tx[k], ty[k]
@@ -372,11 +378,21 @@ func alphaEqual(x, y string) (bool, string) {
 		if isMember {
 			// members of different structs are numbered independently ("x_" here, "x_1" there):
 			// only the base of the new spelling has to be the same everywhere
-			base := reSuffix.ReplaceAllString(b.text, "")
-			if prev, ok := mf[a.text]; ok && prev != base {
-				return false, fmt.Sprintf("member %q becomes both %q and %q (token %d, context: %s)", a.text, prev, b.text, k, around(ty, k))
+			cands := map[string]bool{b.text: true, strings.TrimRight(b.text, "_"): true, reSuffix.ReplaceAllString(b.text, ""): true}
+			if prev, ok := mcand[a.text]; ok {
+				common := map[string]bool{}
+				for c := range cands {
+					if prev[c] {
+						common[c] = true
+					}
+				}
+				if len(common) == 0 {
+					return false, fmt.Sprintf("member %q gets unrelated spellings, one of them %q (token %d, context: %s)", a.text, b.text, k, around(ty, k))
+				}
+				cands = common
 			}
-			mf[a.text] = base
+			mcand[a.text] = cands
+			_ = mf
 			_ = mr
 			continue
 		}
